@@ -8,10 +8,6 @@ package verifsim
 // Update returns. Only what SQLite made durable survives.
 
 import (
-	"time"
-	"net"
-	"net/http"
-	"io"
 	"bufio"
 	"bytes"
 	"context"
@@ -19,11 +15,15 @@ import (
 	"encoding/base64"
 	"encoding/json"
 	"fmt"
+	"io"
+	"net"
+	"net/http"
 	"os"
 	"os/exec"
 	"strconv"
 	"strings"
 	"syscall"
+	"time"
 
 	psql "github.com/transparency-dev/witness/internal/persistence/sql"
 	"github.com/transparency-dev/witness/internal/witness"
@@ -279,7 +279,6 @@ func integrityCheck(path string) (string, error) {
 	}
 	return s, nil
 }
-
 
 // realRestart starts the REAL cmd/omniwitness binary (built from the tree under test) on the store file, the
 // way an operator restarts the service after a crash, reads every log's checkpoint over its HTTP API and stops
